@@ -114,6 +114,7 @@ class PathMgr:
         self.classobj_cands: List[Any] = []
         self._tupkeys: Dict[int, Any] = {}
         self.ddict_factory: Dict[int, str] = {}
+        self.elem_cls: Dict[int, Any] = {}
         self.canon_map: Dict[int, Any] = {}
         self.lazy_branching = False
         self.model_cache: List[Any] = []
@@ -707,6 +708,8 @@ class PathMgr:
             return self.alloc_cls[sid]
         if tid in self.hint_cls:
             return self.hint_cls[tid]
+        if tid in self.elem_cls:
+            return self.elem_cls[tid]           # element of a typed sequence (typing axiom is guarded by the range)
         t = smt.tag_of(sv) or self.kind_hint.get(tid)
         if t == 'str':
             return builtin_class('str')
